@@ -78,7 +78,10 @@ def scan_runs(p):
         op = rs.ops.scan(f, seed, reduce=reduce, terminator=term)
         if ctx in ('plain', 'root'):
             # the same pipeline object is subscribed twice: a second subscription is a new lifetime and must start from a fresh seed
-            obs = D.src(items).pipe(op) if ctx == 'plain' else D.src(items).pipe(rs.state.with_memory_store([op]))
+            pipe_op = op if ctx == 'plain' else rs.state.with_memory_store([op])
+            if items:
+                D.abort_first(pipe_op, items[:1])      # a subscription of the same operator objects that ended with an rx-level error (no key completion)
+            obs = D.src(items).pipe(pipe_op)
             exp = fold(items, f, mkseed, reduce, term, snap)
             for sub in (1, 2):
                 got = []
